@@ -93,6 +93,8 @@ Live(r, now) == r.vu = NoVu \/ r.vu >= now
 Applies(r, c) == r.ct = TypeOf(c) \/ r.ct = "D"
 \* only signers named by the rule count
 Counted(r, sup) == r.signers \cap sup
+TrapK == 77
+TrapFree(g) == \A i \in DOMAIN g.rules : \A p \in g.rules[i].pols : PolCfg(g, p).k # TrapK
 Accepts(g, p, r, sup) == Cardinality(Counted(r, sup)) >= PolCfg(g, p).k
 Satisfied(g, r, sup) == IF r.pols = {} THEN r.signers \subseteq sup
                         ELSE \A p \in r.pols : Accepts(g, p, r, sup)
@@ -219,7 +221,9 @@ AnteD(m, g, ev, d) ==
     [] m = "C03_precedence"     -> chk /\ ok /\ ev.log.enf # <<>> /\ d.cov
     [] m = "C03_signers_scope"  -> chk /\ (ev.log.can # {} \/ ev.log.enf # <<>>)
     [] m = "C03_enforce_log"    -> chk /\ (ok => d.cov)
-    [] m = "C03_complete"       -> chk /\ o.bad = {} /\ d.cov /\ NoRefusal(g, d)
+    \* (a policy whose can_enforce traps - configured with k = TrapK - accepts nothing; what the account does when a policy
+    \* it consults misbehaves that way is left open: no completeness is demanded while such a policy sits on a live rule)
+    [] m = "C03_complete"       -> chk /\ o.bad = {} /\ d.cov /\ NoRefusal(g, d) /\ TrapFree(g)
     [] m = "C20_rules_query"    -> TRUE
     [] m = "C20_rules_refuse"   -> ~chk /\ MustRefuse(g, o)
     [] m = "C20_rules_capacity" -> ~chk /\ (Over(g, o) \/ AtLimit(g, o, ev.now))
